@@ -17,7 +17,11 @@ RULE = ('A real bp.agent.Agent (apps admin, fragment, bpsec, sand, safe as bp/ap
         'model (seen-set keyed as the property says; action of the first re.match-ing route; own admin EID => deliver) '
         'compared after every receive with the recorder invocations, the agent end-of-processing records and the '
         'bundles handed to the convergence layer (decoded independently).  Non-trivial = history holds a repeat, a '
-        'look-alike and a destination matching >= 2 routes with different actions; distinct by SHA-1 of the case.')
+        'look-alike and a destination matching >= 2 routes with different actions; distinct by SHA-1 of the case.  Stack '
+        'histories (three whole nodes, vlib/stack_world.py) also run over impaired datagram networks (netfault: every UDP datagram / '
+        'Ethernet frame delivered twice in a row, the whole batch twice, in reverse order, reversed and then again in order, or '
+        'rotated): whatever the convergence layers hand over twice, n2 transmits a received bundle onward at most once and every '
+        'bundle is delivered at most once; non-trivial there also when a convergence layer did hand the same octets to a BP agent twice.')
 SHRINK_KEYS = ('bundles', 'routes', 'ops')
 ASSUMPTIONS = [
     'route patterns are anchored ("^...") or ".*", so re.match and re.search agree on what "matches" means',
@@ -96,7 +100,7 @@ def strategy(tier):
     single = st.fixed_dictionaries({'routes': routes, 'bundles': st.lists(bundle_specs(), min_size=3, max_size=14)})
     focused = st.fixed_dictionaries({'routes': routes, 'bundles': focused_histories()})
     from vlib import stack_world as sw
-    stack = sw.cases()
+    stack = sw.cases(netfault=True)
     return st.one_of(single, single, focused, stack)
 
 
@@ -110,6 +114,11 @@ def pinned_cases():
                                                    [0, 1000, 0, [0, 10], 2, 0, 0], [0, 1000, 0, [0, 10, 5], 3, 1, 0]]}
     yield 'stack-reconnect', {'kind': 'stack', 'keepalive': 0, 'ops': [['send', 1, 3, True, 0], ['cut', 2], ['send', 1, 3, True, 0],
                                                                      ['close', 3], ['send', 1, 3, True, 1]]}
+    for fault in ('dup', 'dup-late', 'reverse-dup'):
+        for hops in (['udpcl', 'btpu'], ['btpu', 'udpcl']):
+            yield 'stack-netfault-%s-%s' % (fault, hops[0]), {
+                'kind': 'stack', 'keepalive': 0, 'hops': hops, 'umtu': 100, 'emtu': 100, 'rmtu': None, 'size': 300, 'netfault': fault,
+                'ops': [['send', 1, 3, True, 1], ['send', 3, 1, False, 0], ['send', 1, 3, True, 0], ['wait', 1000], ['send', 3, 2, True, 1]]}
     yield 'damaged-then-intact', {'routes': [[2, 'deliver']], 'bundles': [[0, 1000, 0, None, 0, 1, 1], [0, 1000, 0, None, 0, 1, 0],
                                                                        [0, 1000, 0, None, 0, 1, 0]]}
 
@@ -197,6 +206,21 @@ def execute_stack(case):
         out.nontrivial = cut_after_traffic and resend_after_cut
         if out.nontrivial:
             out.label('stack:send-after-session-ended')
+        # impaired datagram networks: the convergence layer may hand one bundle to the BP agent twice (a duplicated
+        # UDPCL datagram or BTP-U frame, a transfer whose segments all arrive again) - the BP agent's seen-set decides
+        if world.net_duplicated:
+            out.label('stack:datagrams-duplicated')
+            out.count('datagrams-duplicated', world.net_duplicated)
+        if world.net_reordered:
+            out.label('stack:datagrams-reordered')
+        handed_twice = 0
+        for host in world.hosts.values():
+            datas = [data for _cl, data in host.handed]
+            handed_twice += len(datas) - len(set(datas))
+        if handed_twice:
+            out.label('stack:cl-handed-a-bundle-twice')
+            out.count('cl-handed-a-bundle-twice', handed_twice)
+            out.nontrivial = True
     finally:
         world.close()
     return out
